@@ -186,6 +186,14 @@ def gen_cases(tier, seed):
                                        ["call", "<func>f", [["v", "b"]], {}],
                                        ["+", ["v", "b"], ["c", 1]], ["*", ["v", "a"], ["v", "b"]]], repeat=3):
             exprs.append([op] + [k for k in kids])
+    # an n-ary sum and an n-ary product in ONE expression that fold the same constants in the same order (a hoisted
+    # sub-expression must be identified by its operator as well as its operands)
+    consts = [["v", "a"], ["v", "b"], ["c", 2], ["c", 3], ["call", "<func>f", [["v", "a"]], {}]]
+    for c1, c2 in itertools.permutations(consts, 2):
+        x, y = ["v", "x"], ["v", "y"]
+        exprs.append(["+", ["*", c1, c2, x], ["+", c1, c2, y]])
+        exprs.append(["*", ["+", c1, c2, y], ["*", c1, c2, x]])
+        exprs.append(["+", ["*", c1, c2, x], ["*", ["+", c1, c2, y], ["v", "x"]], ["+", c2, c1, x]])
     n_exh = len(exprs)
     rng = random.Random(seed)
     nrand = 1500 if tier == "quick" else 120000
